@@ -363,12 +363,18 @@ func (l pyList) Operator(operator Operator, operand pyObject) pyObject {
 	case Add:
 		l2, ok := operand.(pyList)
 		if !ok {
-			if l2, ok := operand.(pyFrozenList); ok {
-				return slices.Clip(append(l, l2.pyList...))
+			fl, ok := operand.(pyFrozenList)
+			if !ok {
+				panic("Cannot add list and " + operand.Type())
 			}
-			panic("Cannot add list and " + operand.Type())
+			l2 = fl.pyList
 		}
-		return slices.Clip(append(l, l2...))
+		// Always build a new list; appending to l could write into spare capacity that it
+		// shares with other lists derived from it.
+		ret := make(pyList, len(l)+len(l2))
+		copy(ret, l)
+		copy(ret[len(l):], l2)
+		return ret
 	case In, NotIn:
 		for _, item := range l {
 			if item == operand {
